@@ -264,7 +264,46 @@ def check_markup(markup, only=None):
 VALID = re.compile(r"^[a-zA-Z][-a-zA-Z0-9]*$")
 
 
-def witness_events(w, kind, t_override=None):
+def new_parser(which):
+    if which == "html":
+        from sharepoint2text.parsing.extractors.html_extractor import _HtmlTreeBuilder
+        return _HtmlTreeBuilder()
+    from sharepoint2text.parsing.extractors.epub_extractor import _XhtmlTextExtractor
+    return _XhtmlTextExtractor()
+
+
+def reach_prefix(which, w, max_len=4):
+    """Breadth-first search for a short event sequence that drives a REAL parser object from its initial state into the
+    witness pre-state (the scalar removal-tracking fields of the model: skip_depth, remembered tag, ...) while the region
+    spec is in the witness's rho.  -> list of events or None."""
+    want = {k: v for k, v in (w.get("self") or {}).items()
+            if isinstance(v, (int, str)) and not isinstance(v, bool) and ("skip" in k.lower() or "tag" in k.lower() or "depth" in k.lower())}
+    on, T, n = bool(w.get("rho_on")), w.get("rho_tag") or "", int(w.get("rho_n") or 0)
+    rho_want = (T, n) if on else None
+    tags = [t for t in dict.fromkeys([T] + [v for v in want.values() if isinstance(v, str)] + [w.get("tag"), "noscript", "object"])
+            if isinstance(t, str) and t]
+    alphabet = [(k, t) for t in tags for k in ("S", "E")]
+    frontier = [[]]
+    for _depth in range(max_len + 1):
+        nxt = []
+        for seq in frontier:
+            p = new_parser(which)
+            rho = None
+            try:
+                for k, t in seq:
+                    (p.handle_starttag(t, []) if k == "S" else p.handle_endtag(t))
+                    rho = step(rho, (k, t))
+            except Exception:  # noqa
+                continue
+            if rho == rho_want and all(getattr(p, f, None) == v for f, v in want.items()):
+                return seq
+            if len(seq) < max_len:
+                nxt.extend(seq + [e] for e in alphabet)
+        frontier = nxt
+    return None
+
+
+def witness_events(w, kind, t_override=None, prefix=None):
     on, T, n = bool(w.get("rho_on")), w.get("rho_tag") or "", int(w.get("rho_n") or 0)
     tag = w.get("tag") if isinstance(w.get("tag"), str) else "x"
     if t_override is not None and on:
@@ -277,7 +316,14 @@ def witness_events(w, kind, t_override=None):
     for f, v in sorted((w.get("self") or {}).items()):
         if "tag" in f.lower() and isinstance(v, str) and not on and v in REMOVE and v not in VOID:
             ev += [("S", v), ("D", "HIDold"), ("E", v)]
-    if on:
+    if prefix is not None:
+        ev = ev[:4]
+        for e in prefix:
+            ev.append(e)
+            rho = step(rho, e)
+            if rho is not None:
+                ev.append(("D", "HIDpfx"))
+    elif on:
         if not (T in REMOVE and T not in VOID) or n < 0 or n > 6:
             return None
         for _ in range(n + 1):
@@ -317,9 +363,16 @@ def sanitise(events, T):
 
 def replay_witness(w, kind, which):
     tried = []
-    # (a) function level, exact witness
-    ev = witness_events(w, kind)
-    if ev is not None:
+    # (a) function level, exact witness: standard prefix first, then a searched prefix that reaches the model's pre-state
+    for attempt in ("standard", "searched"):
+        prefix = None
+        if attempt == "searched":
+            prefix = reach_prefix(which, w)
+            if prefix is None:
+                break
+        ev = witness_events(w, kind, prefix=prefix)
+        if ev is None:
+            continue
         vis, hid = classify(ev)
         try:
             out = run_handlers(which, ev)
@@ -327,6 +380,17 @@ def replay_witness(w, kind, which):
             out = f"<{type(e).__name__}: {e}>"
         bad = judge(out, vis, hid)
         tried.append(("handlers", ev))
+        if bad and prefix is not None:
+            cls = "html_extractor._HtmlTreeBuilder" if which == "html" else "epub_extractor._XhtmlTextExtractor"
+            res = {"reproduced": True, "target": f"{cls} handlers called with a searched prefix + the witness event",
+                   "inputs": {"events": ev, "witness": w}, "expected": f"visible {sorted(tokens(vis))} stored, removed {sorted(tokens(hid))} not stored (region spec)",
+                   "observed": bad}
+            mk = to_markup(sanitise(ev, w.get("rho_tag") or ""))
+            if tokenise(mk) == sanitise(ev, w.get("rho_tag") or ""):
+                api = check_markup(mk, only=("read_epub", ) if which == "epub" else ("read_html", "read_mhtml", "msg"))
+                if api:
+                    res["api_level"] = api
+            return res
         if bad:
             cls = "html_extractor._HtmlTreeBuilder" if which == "html" else "epub_extractor._XhtmlTextExtractor"
             res = {"reproduced": True, "target": f"{cls} handlers called with the witness events", "inputs": {"events": ev, "witness": w},
@@ -387,8 +451,62 @@ def grammar():
             docs.append(f"<p>VISa</p>{fake}<p>VISb</p><{r}>HIDa</{r}><p>VISc</p>")
             docs.append(f"<p>VISa</p>{fake}<p>VISb</p><{r} type=x>HIDa</{r} ><p>VISc</p><!-- HIDb -->VISd")
         docs.append(f"<p>VISa</p><{r}>HIDa</{r}><p>VISb</p><!-- </{r}> --><p>VISc</p>")
+        # a stray extra end tag of an element that was removed before, then a new region
+        docs.append(f"<p>VISa</p><{r}>HIDa</{r}></{r}><p>VISb</p><{r}>HIDb</{r}><p>VISc</p>")
+        docs.append(f"<p>VISa</p></{r}><p>VISb</p><{r}>HIDb</{r}><p>VISc</p></{r}><p>VISd</p>")
     docs += long_prefix_docs()
     return docs
+
+
+def sequences():
+    """Pairs of documents processed one after the other (two chapters of one EPUB; two calls of the other entry points): every
+    document is judged on its own -- whatever the first one leaves open (region, raw-text mode, table cell, unterminated
+    comment) must not reach the second."""
+    firsts = ["<p>VISa</p><noscript>HIDa", "<p>VISa</p><script>HIDa", "<p>VISa</p><object><object>HIDa</object>", "<p>VISa</p><table><tr><td>cell",
+              "<p>VISa</p><!-- HIDa", "<p>VISa</p><iframe><p>HIDa</p>"]
+    seconds = ["<p>VISb</p><noscript>HIDb</noscript><p>VISc</p>", "VISb<p>VISc</p><!-- HIDb -->"]
+    return [[a, b] for a in firsts for b in seconds]
+
+
+def via_epub_book(docs):
+    from sharepoint2text.parsing.extractors.epub_extractor import read_epub
+    buf = io.BytesIO()
+    with zipfile.ZipFile(buf, "w") as z:
+        z.writestr("mimetype", "application/epub+zip")
+        z.writestr("META-INF/container.xml",
+                   '<?xml version="1.0"?><container version="1.0" xmlns="urn:oasis:names:tc:opendocument:xmlns:container">'
+                   '<rootfiles><rootfile full-path="OEBPS/content.opf" media-type="application/oebps-package+xml"/></rootfiles></container>')
+        items = "".join(f'<item id="c{i}" href="c{i}.xhtml" media-type="application/xhtml+xml"/>' for i in range(len(docs)))
+        refs = "".join(f'<itemref idref="c{i}"/>' for i in range(len(docs)))
+        z.writestr("OEBPS/content.opf",
+                   '<?xml version="1.0"?><package xmlns="http://www.idpf.org/2007/opf" version="3.0" unique-identifier="id">'
+                   '<metadata xmlns:dc="http://purl.org/dc/elements/1.1/"><dc:title>T</dc:title><dc:identifier id="id">x</dc:identifier></metadata>'
+                   f'<manifest>{items}</manifest><spine>{refs}</spine></package>')
+        for i, d in enumerate(docs):
+            z.writestr(f"OEBPS/c{i}.xhtml", d)
+    book = next(read_epub(io.BytesIO(buf.getvalue()), path="t.epub"))
+    by_href = {ch.href.split("/")[-1]: f"{ch.text}\n{ch.title}\n{ch.tables!r}" for ch in book.chapters}
+    return [by_href.get(f"c{i}.xhtml", "<no chapter extracted>") for i in range(len(docs))]
+
+
+def check_sequence(docs, only=None):
+    for name, fn in WRAPPERS:
+        if only and not any(o in name for o in only):
+            continue
+        try:
+            outs = via_epub_book(docs) if "epub" in name else [fn(d) for d in docs]
+        except Exception as e:  # noqa
+            outs = [f"<{type(e).__name__}: {e}>"] * len(docs)
+        for i, (d, out) in enumerate(zip(docs, outs)):
+            if "read_msg_format_mail" in name and not is_html_body(d):
+                continue
+            ev, vis, hid = expected(d)
+            bad = judge(out, vis, hid)
+            if bad:
+                return {"reproduced": True, "target": name + f" (document {i + 1} of {len(docs)} processed in sequence)",
+                        "inputs": {"documents": docs}, "expected": f"document {i + 1} on its own: visible {sorted(tokens(vis))}, removed {sorted(tokens(hid))}",
+                        "observed": f"{bad}; text={out[:300]!r}"}
+    return None
 
 
 def long_prefix_docs():
@@ -416,6 +534,12 @@ def search(only=None, limit=None):
         if limit and n > limit:
             break
         bad = check_markup(d, only=only)
+        if bad:
+            bad["tried"] = n
+            return bad
+    for seq in sequences():
+        n += 1
+        bad = check_sequence(seq, only=only)
         if bad:
             bad["tried"] = n
             return bad
@@ -452,6 +576,9 @@ def find(req):
 
 def rerun(stored):
     inp = stored.get("inputs") or {}
+    if inp.get("documents"):
+        r = check_sequence(inp["documents"])
+        return r or {"reproduced": False, "note": "stored document sequence now agrees with the region spec"}
     if inp.get("markup"):
         r = check_markup(inp["markup"])
         return r or {"reproduced": False, "note": "stored markup now agrees with the region spec"}
